@@ -55,6 +55,13 @@ func directed() []struct {
 			B(3, 8, 4, 1, 1), B(3, 9, 6, 1, 1), A(1, 9, 6), A(2, 9, 6), H, Q("Fin"), SR(3, 4, 1, 0, 3, 0)}},
 		{"directed-prune-sink-fails", ini(4, false), cat(chain, fork, []Op{H, U(6, 1, 5, 1, 5, bal, 2), H, Q("GetSlot", 1), Q("GetSlot", 2), Q("GetSlot", 5), Q("Chain", 5, 4),
 			A(0, 6, 5), H, B(6, 9, 6, 1, 1), H, S(9, 8, 1, 1), U(9, 2, 9, 2, 9, bal, -1), H, Q("Chain", 9, 8)})},
+		// the sink refuses the 6th node at an empty-slot anchor: (3,2), the node the blocks on root 3 hang off, is gone, (3,3) stays
+		{"directed-prune-gap-sink-fails", ini(4, false), []Op{B(1, 2, 1, 0, 0), B(2, 3, 2, 0, 0), B(3, 4, 5, 1, 1), B(4, 5, 6, 1, 1), A(0, 5, 6), A(1, 5, 6), H,
+			U(5, 1, 3, 1, 3, bal, 5), H, Q("FindHead", 3, 3), Q("FindHead", 3, 4), Q("GetSlot", 3), Q("GetSlot", 2), Q("Chain", 3, 3), Q("InSub", 3, 5),
+			A(2, 4, 5), H, B(5, 6, 7, 1, 1), Q("FindHead", 3, 3), SR(3, 3, 1, 0, 3, 0), Q("Fin"), S(6, 8, 2, 2), B(6, 7, 9, 2, 2),
+			U(7, 2, 6, 2, 6, bal, -1), H, Q("Chain", 6, 8), Q("GetSlot", 3), Q("GetSlot", 6)}},
+		{"directed-prune-gap-sink-fails-early", ini(4, false), []Op{B(1, 2, 1, 0, 0), B(2, 3, 2, 0, 0), B(3, 4, 5, 1, 1), B(4, 5, 6, 1, 1), A(0, 5, 6), H,
+			U(5, 1, 3, 1, 3, bal, 2), H, Q("FindHead", 3, 2), Q("FindHead", 2, 2), Q("GetSlot", 2), Q("GetSlot", 1), Q("Chain", 3, 4), A(1, 5, 6), H}},
 		{"directed-nonviable-children", ini(4, false), []Op{B(1, 2, 1, 1, 0), B(2, 3, 2, 2, 0), B(2, 4, 2, 2, 0), A(0, 3, 2), A(1, 3, 2), H, Q("FindHead", 2, 1), S(4, 4, 2, 0), A(0, 4, 4), A(1, 4, 4), A(2, 4, 4),
 			U(1, 1, 2, 0, 1, bal, -1), H, Q("FindHead", 2, 1), Q("Chain", 2, 1), Q("FindHead", 4, 2)}},
 		{"directed-unknown-vote-target", ini(4, false), cat(chain, []Op{A(0, 2, 1), H, A(0, 6, 4), H, A(1, 3, 2), H, A(2, 3, 2), H, A(0, 6, 5), H, A(0, 6, 9), H, S(6, 9, 0, 0), A(0, 6, 9), H})},
